@@ -40,7 +40,7 @@ namespace c12
   }
 
   template<typename Shape_>
-  std::unique_ptr<typename Ty<Shape_>::Node> gen_base(vh::Ctx& c, std::vector<int>* checker)
+  std::unique_ptr<typename Ty<Shape_>::Node> gen_base(vh::Ctx& c, std::vector<int>* checker, std::vector<std::array<int, 3>>* cellpos = nullptr, Index* dims = nullptr)
   {
     vh::Rng& r = c.rng;
     Index nx = 1, ny = 1, nz = 1;
@@ -55,7 +55,10 @@ namespace c12
       const int ix = std::min<int>(int(ctr[0] * double(nx)), int(nx) - 1), iy = std::min<int>(int(ctr[1] * double(ny)), int(ny) - 1);
       const int iz = vm::ShapeInfo<Shape_>::dim == 3 ? std::min<int>(int(ctr[2] * double(nz)), int(nz) - 1) : 0;
       col[i] = ix + iy + iz;
+      if(cellpos) { cellpos->resize(ms.cells.size()); (*cellpos)[i] = {{ix, iy, iz}}; }
     }
+    if(dims) { dims[0] = nx; dims[1] = ny; dims[2] = nz; }
+    if(cellpos && !in_box) cellpos->clear();
     // own cell permutation (keeps `col` attached to the cells)
     if(r.coin(0.6))
     {
@@ -63,6 +66,7 @@ namespace c12
       r.shuffle(p);
       auto oc = ms.cells; auto ocol = col;
       for(std::size_t i = 0; i < p.size(); ++i) { ms.cells[i] = oc[p[i]]; col[i] = ocol[p[i]]; }
+      if(cellpos && !cellpos->empty()) { auto op = *cellpos; for(std::size_t i = 0; i < p.size(); ++i) (*cellpos)[i] = op[p[i]]; }
       ms.tag("perm_cells");
     }
     if(r.coin(0.5)) vm::reorient_cells(ms, r);
